@@ -862,8 +862,8 @@ def selftest():
 
 def jobs(tier, seed):
     q = tier == 'quick'
-    plan = {'xsd': (3, 2000 if q else 30000), 'xpath': (4, 2000 if q else 30000), 'cls': (3, 1000 if q else 16000),
-            'invalid': (2, 800 if q else 12000), 'fn': (4, 300 if q else 4000)}
+    plan = {'xsd': (3, 2000 if q else 30000), 'xpath': (4, 2000 if q else 30000), 'cls': (3, 1800 if q else 30000),
+            'invalid': (2, 1500 if q else 30000), 'fn': (4, 600 if q else 10000)}
     out = []
     only = os.environ.get('VERIF_C12_CHECKS')       # development aid (sensitivity runs): restrict the sub-checks
     if only:
